@@ -11,10 +11,11 @@ from mc.kernel import Space
 
 PROPERTY = "C12"
 RULE = (
-    "every sorted tree ST(n) up to the tier bound x root position (origin / away from the origin) x every transform "
+    "every labelled tree LT(n<=4) (+ ST(5) in thorough) x root position (origin / two away from the origin) x every transform "
     "instance of the grids (Translate, TranslateOrigin, Scale, RotateX/Y/Z, Rotate, AffineTransform; centre in "
     "{default, root, soma, origin}; instance call and .transform classmethod), each followed by its inverse; plus every "
-    "matrix-builder call of the same grids; reference = float64 Rodrigues / per-axis scaling about the centre in plain "
+    "matrix-builder call of the same grids; plus call histories: one transform object applied to every ordered pair (triple) of "
+    "inputs, earlier results re-judged after later calls, all results retained across cases; reference = float64 Rodrigues / per-axis scaling about the centre in plain "
     "Python; non-trivial = the map is not the identity on the tree; distinct = distinct (tree, root, op)"
 )
 ASSUMPTIONS = [
@@ -74,47 +75,69 @@ def _axis_arg(n, form):
 # ------------------------------------------------------------------ op -> (implementation callable, reference map, inverse op, amplification)
 
 
-def _make(op):
-    """Returns (name, call(x) -> tree, centre_mode) for an op description."""
+def _instance(op):
+    """(name, transform object) for an op description applied by calling an instance."""
     from swcgeom.transforms import AffineTransform, Rotate, RotateX, RotateY, RotateZ, Scale, Translate, TranslateOrigin
     from swcgeom.utils import rotate3d_z, scale3d, translate3d
 
     kind = op[0]
     if kind == "translate":
-        _, t, centre, via = op
+        _, t, centre, _via = op
         kw = {} if centre is None else {"center": centre}
-        if via == "call":
-            return "Translate", lambda x: Translate(t[0], t[1], t[2], **kw)(x)
-        return "Translate.transform", lambda x: Translate.transform(x, t[0], t[1], t[2], **kw)
+        return "Translate", Translate(t[0], t[1], t[2], **kw)
     if kind == "translate_origin":
-        if op[1] == "call":
-            return "TranslateOrigin", lambda x: TranslateOrigin()(x)
-        return "TranslateOrigin.transform", lambda x: TranslateOrigin.transform(x)
+        return "TranslateOrigin", TranslateOrigin()
     if kind == "scale":
-        _, s, centre, via = op
+        _, s, centre, _via = op
         kw = {} if centre is None else {"center": centre}
-        if via == "call":
-            return "Scale", lambda x: Scale(s[0], s[1], s[2], **kw)(x)
-        return "Scale.transform", lambda x: Scale.transform(x, s[0], s[1], s[2], **kw)
+        return "Scale", Scale(s[0], s[1], s[2], **kw)
     if kind in XYZ_AXES:
-        _, th, centre, via = op
+        _, th, centre, _via = op
         cls = {"rotx": RotateX, "roty": RotateY, "rotz": RotateZ}[kind]
         kw = {} if centre is None else {"center": centre}
-        if via == "call":
-            return cls.__name__, lambda x: cls(th, **kw)(x)
-        return cls.__name__ + ".transform", lambda x: cls.transform(x, th, **kw)
+        return cls.__name__, cls(th, **kw)
     if kind == "rotate":
-        _, n, th, centre, via, form = op
+        _, n, th, centre, _via, form = op
         kw = {} if centre is None else {"center": centre}
-        if via == "call":
-            return "Rotate", lambda x: Rotate(_axis_arg(n, form), th, **kw)(x)
-        return "Rotate.transform", lambda x: Rotate.transform(x, _axis_arg(n, form), th, **kw)
+        return "Rotate", Rotate(_axis_arg(n, form), th, **kw)
     if kind == "affine":
         # tm = T(t) . Rz(th) . S(s): scale, then turn about z, then shift -- about the centre
         _, s, th, t, centre = op
         kw = {} if centre is None else {"center": centre}
         tm = translate3d(*t).dot(rotate3d_z(th)).dot(scale3d(*s))
-        return "AffineTransform", lambda x: AffineTransform(tm, **kw)(x)
+        return "AffineTransform", AffineTransform(tm, **kw)
+    raise ValueError(op)
+
+
+def _make(op):
+    """Returns (name, call(x) -> tree) for an op description; the transform object is built inside the call."""
+    from swcgeom.transforms import Rotate, RotateX, RotateY, RotateZ, Scale, Translate, TranslateOrigin
+
+    kind = op[0]
+    via = op[1] if kind == "translate_origin" else (op[3] if kind in ("translate", "scale") or kind in XYZ_AXES else (op[4] if kind == "rotate" else "call"))
+    if via == "call":
+        name = {"translate": "Translate", "translate_origin": "TranslateOrigin", "scale": "Scale", "rotx": "RotateX", "roty": "RotateY",
+                "rotz": "RotateZ", "rotate": "Rotate", "affine": "AffineTransform"}[kind]
+        return name, lambda x: _instance(op)[1](x)
+    if kind == "translate":
+        _, t, centre, _ = op
+        kw = {} if centre is None else {"center": centre}
+        return "Translate.transform", lambda x: Translate.transform(x, t[0], t[1], t[2], **kw)
+    if kind == "translate_origin":
+        return "TranslateOrigin.transform", lambda x: TranslateOrigin.transform(x)
+    if kind == "scale":
+        _, s, centre, _ = op
+        kw = {} if centre is None else {"center": centre}
+        return "Scale.transform", lambda x: Scale.transform(x, s[0], s[1], s[2], **kw)
+    if kind in XYZ_AXES:
+        _, th, centre, _ = op
+        cls = {"rotx": RotateX, "roty": RotateY, "rotz": RotateZ}[kind]
+        kw = {} if centre is None else {"center": centre}
+        return cls.__name__ + ".transform", lambda x: cls.transform(x, th, **kw)
+    if kind == "rotate":
+        _, n, th, centre, _, form = op
+        kw = {} if centre is None else {"center": centre}
+        return "Rotate.transform", lambda x: Rotate.transform(x, _axis_arg(n, form), th, **kw)
     raise ValueError(op)
 
 
@@ -222,10 +245,11 @@ def _centre_label(op, root):
     return f"{fam}:centre-at-{_centre_mode(op) or 'n/a'}:root{'==' if at0 else '!='}origin"
 
 
-def _apply_checked(R, x, xyz, root, op, tag):
+def _apply_checked(R, x, xyz, root, op, tag, prepared=None):
     """Run one op on tree x (whose float64 coordinates are xyz) and check it against the stated map.
-    Returns (tree, its coordinates) or None."""
-    name, call = _make(op)
+    `prepared` = (name, callable) to use an already constructed transform object.
+    Returns (tree, its coordinates, predicted coordinates, tolerance data) or None."""
+    name, call = prepared or _make(op)
     snap = build.snapshot(x)
     before = _cols(x)
     ok, y = R.impl(name, call, x)
@@ -320,6 +344,71 @@ def check_transform(case, R):
             f"inverse-does-not-restore:{_centre_label(op, root)}")
     after = _cols(cur)
     R.check(after == _cols(x), "column-changed", lambda: f"op={op} and inverse changed id/pid/type/r", "column-changed:inverse")
+
+
+# ------------------------------------------------------------------ call histories: one transform object, several trees
+
+HIST_INPUTS = [([-1], 1), ([-1, 0], 2), ([-1, 0, 0], 0), ([-1, 0, 1], 1), ([-1, 0, 1], 2), ([-1, 2, 0, 0], 1)]
+HIST_OPS = [
+    ["translate", [1.0, -2.0, 0.5], None, "call"],
+    ["translate_origin", "call"],
+    ["scale", [0.5, 2.0, 3.0], None, "call"],
+    ["scale", [0.5, 2.0, 3.0], "origin", "call"],
+    ["scale", [1.0, 1.0, 1.0], "root", "call"],
+    ["rotz", 1.234, None, "call"],
+    ["rotz", 1.234, "origin", "call"],
+    ["rotx", math.pi / 2, "soma", "call"],
+    ["roty", 0.0, "root", "call"],
+    ["rotate", [1 / SQ14, 2 / SQ14, 3 / SQ14], -math.pi / 3, None, "call", "f64"],
+    ["rotate", [1 / SQ14, 2 / SQ14, 3 / SQ14], -math.pi / 3, "origin", "call", "f64"],
+    ["affine", [0.5, 2.0, 3.0], 1.234, [1.0, -2.0, 0.5], "root"],
+    ["affine", [0.5, 2.0, 3.0], 1.234, [1.0, -2.0, 0.5], None],
+]
+
+
+def _positions(R, y, xyz, root, op, tag, name):
+    """Re-judge the coordinates of an earlier result against the stated map."""
+    fmap, amp, t1 = _ref_map(op, root)
+    c = _centre_point(op, root)
+    got = [tuple(float(v) for v in row) for row in np.asarray(y.xyz(), dtype=np.float64).tolist()]
+    for i, p in enumerate(xyz):
+        w = fmap(p)
+        err = max(abs(got[i][k] - w[k]) for k in range(3))
+        if not R.check(err <= _tol(p, c, amp, t1), f"{tag}position",
+                       lambda: f"{name} op={op} root={root}: node {i} {p} now reads {got[i]}, stated map gives {w}",
+                       f"{tag}position:{_centre_label(op, root)}"):
+            return
+
+
+def check_history(case, R):
+    """One transform object built once and applied to a sequence of trees (different sizes and root positions, or the very
+    same tree object twice); every result is judged when returned and re-judged after the later calls."""
+    op, seq, bank_k = case[0], list(case[1]), case[2]
+    R.state(op, seq)
+    ok, built = R.impl("construct", _instance, op)
+    if not ok:
+        return
+    name, inst = built
+    live, made = [], {}
+    for pos, ii in enumerate(seq):
+        p, ri = HIST_INPUTS[ii]
+        root = ROOTS[ri]
+        if ii in made:  # the same input again: the very same tree object
+            x, xyz = made[ii]
+        else:
+            x, xyz32 = _tree(p, root, bank_k)
+            xyz = [tuple(float(v) for v in q) for q in xyz32]
+            made[ii] = (x, xyz)
+        res = _apply_checked(R, x, xyz, root, op, f"history[{pos}]:", prepared=(name, inst))
+        if res is None:
+            continue
+        y = res[0]
+        cols = _cols(y)
+        live.append((pos, y, xyz, root, cols))
+        R.outcome(op[0], ii, pos)
+    for pos, y, xyz, root, cols in live[:-1]:
+        _positions(R, y, xyz, root, op, f"history[{pos}]:re-inspected-after-later-calls:", name)
+        R.check(_cols(y) == cols, "history:re-inspected-after-later-calls:column-changed", lambda: f"{name} op={op}: id/pid/type/r of an earlier result changed")
 
 
 # ------------------------------------------------------------------ matrix builders
@@ -434,10 +523,12 @@ def _builder_cases(tier):
 
 def spaces(tier, seed):
     quick = tier == "quick"
-    n_hi = 4 if quick else 5
     roots = [0, 1, 2]
     bank_k = seed % 4
-    trees = [p for n in range(1, n_hi + 1) for p in S.sorted_trees(n)]
+    # every numbering (children may precede parents) up to 4 nodes; thorough adds all sorted 5-node trees
+    trees = [p for n in range(1, 5) for p in S.labelled_trees(n)]
+    if not quick:
+        trees += list(S.sorted_trees(5))
 
     def gen():
         for p in trees:
@@ -445,8 +536,20 @@ def spaces(tier, seed):
                 for op in _ops(tier):
                     yield [list(p), ri, bank_k, op]
 
+    def gen_hist():
+        k = len(HIST_INPUTS)
+        for op in HIST_OPS:
+            for i in range(k):
+                for j in range(k):
+                    yield [op, [i, j], bank_k]
+            if not quick:
+                for i in range(k):
+                    for j in range(k):
+                        for l in range(k):
+                            yield [op, [i, j, l], bank_k]
+
     bounds = {
-        "trees": f"all sorted trees with <= {n_hi} nodes ({len(trees)})",
+        "trees": f"all labelled trees (every numbering, root = node 0) with <= 4 nodes{'' if quick else ' + all sorted trees with 5 nodes'} ({len(trees)})",
         "root_positions": [ROOTS[i] for i in roots],
         "children": f"root + generic bank {bank_k} (float32)",
         "translations": TRANSLATIONS,
@@ -457,7 +560,10 @@ def spaces(tier, seed):
         "ops_per_tree": sum(1 for _ in _ops(tier)),
     }
     return [
-        Space.of("transforms", gen, check_transform, bounds=bounds),
+        Space.of("transforms", gen, check_transform, bounds=bounds, auto_retain=True),
+        Space.of("call-histories", gen_hist, check_history, auto_retain=True,
+                 bounds={"transform_objects": len(HIST_OPS), "inputs": HIST_INPUTS, "sequence_length": "2" if quick else "2 and 3",
+                         "note": "object built once; same input index twice = the same tree object"}),
         Space.of("matrix-builders", lambda: _builder_cases(tier), check_builder,
                  bounds={"cases": sum(1 for _ in _builder_cases(tier)), "axis_forms": ["float64 array", "float32 array", "list"]}),
     ]
